@@ -60,6 +60,11 @@ def c09_cases(rng, tier):
                 stmt = ("apply", name.upper() if upper else name, args, [angle_expr(rng, tier) for _ in range(npar)])
                 nodes = decl + prep + [stmt]
                 cs.append({"chunks": [nodes], "seed": 1, "kind": name, "stmt": stmt, "prep": decl + prep})
+                partner = {"s": "sdg", "sdg": "s", "t": "tdg", "tdg": "t"}.get(name)
+                if partner:
+                    # the same program with the gate's dagger partner, directly afterwards
+                    stmt2 = ("apply", partner.upper() if upper else partner, args, [])
+                    cs.append({"chunks": [decl + prep + [stmt2]], "seed": 1, "kind": partner, "stmt": stmt2, "prep": decl + prep})
     # whole-register form of every one-qubit gate without parameter (and of qft) on registers of 2..4 qubits
     for name in sorted(pyref.BROADCAST1) + ["qft"]:
         for size in ((2, 3, 4) if tier == "quick" else (2, 3, 4, 5)):
@@ -154,7 +159,19 @@ def c11_cases(rng, tier):
                 nodes.append(("if", reg, v, ("apply", "x", [("q", "q", 2)], [])))
                 nodes.append(("apply", "h", [("q", "q", 0)], []))
                 cs.append({"chunks": [nodes], "seed": rng.randrange(1 << 30)})
-    return cs
+    # a third of the programs run again directly afterwards in the other measurement mode (same seed), and a qubit
+    # measured twice into the same bit in both modes and both orders
+    twice = [("qreg", "q", 2), ("creg", "c", 2), ("apply", "x", [("q", "q", 0)], []), ("measure", ("q", "q", 0), ("q", "c", 0)),
+             ("measure", ("q", "q", 0), ("q", "c", 0)), ("apply", "h", [("q", "q", 1)], []), ("measure", ("q", "q", 1), ("q", "c", 1)),
+             ("measure", ("q", "q", 1), ("q", "c", 1))]
+    out = []
+    for x in (False, True, False):
+        out.append({"chunks": [twice], "seed": 17, "xor": x})
+    for c in cs:
+        out.append(c)
+        if rng.random() < 0.34:
+            c2 = dict(c); c2["xor"] = not c.get("xor"); out.append(c2)
+    return out
 
 
 def c11_oracle(case, obs):
@@ -339,12 +356,19 @@ def c13_cases(rng, tier):
         cs.append({"chunks": [nodes], "seed": 1, "expect": None, "rule": "well-formed"})
         for rule, prog, exp in c13_mutants(rng, nodes, lay):
             cs.append({"chunks": [prog], "seed": 1, "expect": exp, "rule": rule})
-            # the same violation arriving in a later chunk of an incremental session
-            if rng.random() < 0.25:
-                k = len(lay_decl_end(prog))
-                if 0 < k < len(prog):
+            # the same violation arriving in a later chunk of an incremental session: the cut lies anywhere before the
+            # planted statement (rules about names -- duplicates -- always get a cut, they have to look across chunks)
+            if rng.random() < 0.3 or rule.startswith("duplicate") or "named like" in rule:
+                p = next((i for i in range(min(len(prog), len(nodes))) if prog[i] != nodes[i]), min(len(prog), len(nodes)))
+                if p >= 1 and len(prog) > 1:
+                    k = rng.randint(1, min(p, len(prog) - 1))
                     cs.append({"chunks": [prog[:k], prog[k:]], "seed": 1, "expect": exp, "rule": rule + " (second chunk)",
                                "api": rng.choice(["add", "changes"])})
+                    if p >= 2 and rng.random() < 0.5:
+                        k1 = rng.randint(1, p - 1); k2 = rng.randint(k1 + 1, min(p, len(prog) - 1)) if k1 + 1 <= min(p, len(prog) - 1) else None
+                        if k2:
+                            cs.append({"chunks": [prog[:k1], prog[k1:k2], prog[k2:]], "seed": 1, "expect": exp,
+                                       "rule": rule + " (third chunk)", "api": rng.choice(["add", "changes"])})
     return cs
 
 
@@ -411,7 +435,19 @@ def c17_cases(rng, tier):
         for _ in range(3):
             api = rng.choice(["add", "changes", "prepend"])
             chunks = split_chunks(rng, nodes, rng.randint(1, 6))
-            cs.append({"chunks": chunks, "api": api, "seed": seed, "xor": xor, "whole": nodes})
+            # the accumulate mode may be chosen at any time: at the end, on the still empty session, after the first chunk
+            cs.append({"chunks": chunks, "api": api, "seed": seed, "xor": xor, "xor_at": rng.choice([1, 2, 2, 3]), "whole": nodes})
+    # chunks that declare nothing (header, include, comment, barrier on nothing) before the first declaring chunk: they
+    # are accepted, so the record lists them; and the mode chosen on the empty session must survive
+    body = [("qreg", "q", 2), ("creg", "c", 2), ("apply", "x", [("q", "q", 0)], []), ("measure", ("q", "q", 0), ("q", "c", 0)),
+            ("measure", ("q", "q", 0), ("q", "c", 0)), ("apply", "h", [("q", "q", 1)], []), ("measure", ("q", "q", 1), ("q", "c", 1))]
+    for api in ("changes", "prepend", "add"):
+        for xor_at in (0, 1, 2, 3):
+            for lead in (["OPENQASM 2.0;\n"], ["OPENQASM 2.0;\ninclude \"qelib1.inc\";\n", "// a comment only\n"], []):
+                chunks = [[] for _ in lead] + [body[:2], body[2:5], body[5:]]
+                texts = list(lead) + [qa.p_program(c, None) for c in chunks[len(lead):]]
+                cs.append({"chunks": chunks, "texts": texts, "api": api, "seed": 11, "xor": xor_at != 0, "xor_at": xor_at or 1,
+                           "whole": body})
     return cs
 
 
@@ -468,14 +504,35 @@ def c17_rerun(run, binary, rng, tier):
          ("if", "c", 0, ("apply", "h", [("q", "q", 0)], []))],
     ]
     small = [("qreg", "p", 1), ("apply", "h", [("q", "p", 0)], [])]
-    for k in range(len(fixed) + (20 if tier == "quick" else 800)):
-        if k < len(fixed):
-            nodes, other = fixed[k], small
-        else:
-            nodes, lay = qa.gen_program(rng, nstmts=rng.randint(4, 15), max_q=4, measure_p=0.2, if_p=0.15, reset_p=0.1, gate_defs=1, depth=2)
+    # a qubit measured twice into the same bit tells the two measurement modes apart
+    twice = [("qreg", "q", 2), ("creg", "c", 2), X("q", 0), ("measure", ("q", "q", 0), ("q", "c", 0)), ("measure", ("q", "q", 0), ("q", "c", 0)),
+             ("apply", "h", [("q", "q", 1)], []), ("measure", ("q", "q", 1), ("q", "c", 1)), ("measure", ("q", "q", 1), ("q", "c", 1))]
+    pairs = [("s", "sdg"), ("sdg", "s"), ("t", "tdg"), ("tdg", "t"), ("x", "y"), ("rz", "rx")]
+    plan = [(f, small, 0, 0) for f in fixed]
+    # the simulator that is re-used through init ran *nearly the same* program before: the same registers, one gate
+    # replaced by its dagger (or a neighbouring gate), and / or the other measurement mode
+    plan += [(twice, twice, 1, 0), (twice, twice, 0, 1), (twice, twice, 1, 1)]
+    for a, b in pairs:
+        par = [("num", "0.7")] if a.startswith("r") else []
+        for ctl in ("", "c", "cc"):
+            qs = [("q", "q", i) for i in range(len(ctl) + 1)]
+            mk = lambda g: [("qreg", "q", 3), ("creg", "c", 1), ("apply", "h", [("r", "q")], []), ("apply", ctl + g, qs, par),
+                            ("apply", "h", [("r", "q")], [])]
+            plan.append((mk(a), mk(b), 0, 0))
+    for k in range(20 if tier == "quick" else 800):
+        nodes, lay = qa.gen_program(rng, nstmts=rng.randint(4, 15), max_q=4, measure_p=0.2, if_p=0.15, reset_p=0.1, gate_defs=1, depth=2)
+        if rng.random() < 0.5:
             other, _ = qa.gen_program(rng, nstmts=4, max_q=3, measure_p=0.1, gate_defs=0, depth=1)
+            plan.append((nodes, other, 0, 0))
+        else:
+            # a twin: the same program with a tail that differs in one gate, in either mode
+            q0 = lay.qubits()[0]
+            a, b = rng.choice(pairs[:4])
+            tail = lambda g: [("apply", "h", [q0], []), ("apply", g, [q0], []), ("apply", "h", [q0], [])]
+            plan.append((nodes + tail(a), nodes + tail(b), rng.randrange(2), rng.randrange(2)))
+    for nodes, other, x1, x2 in plan:
         seed = rng.randrange(1 << 30)
-        line = "rerun %d %s %s" % (seed, qasmcheck.hexs(qa.p_program(nodes)), qasmcheck.hexs(qa.p_program(other)))
+        line = "rerun %d %s %s %d %d" % (seed, qasmcheck.hexs(qa.p_program(nodes)), qasmcheck.hexs(qa.p_program(other)), x1, x2)
         out = run_harness(binary, "qasm", [("0", line)], deadline=30.0)["0"]
         n += 1
         if not out.startswith("OK"):
@@ -507,6 +564,32 @@ def c18_cases(rng, tier):
                 [("apply", "z", [("q", "q", 1)], []), ("measure", ("q", "q", 0), ("q", "c", 1)), ("apply", "h", [("q", "q", 1)], [])]):
         sessions.append({"chunks": [good0, pre + [zz], cont], "bad": [1], "seed": 6})
     sessions.append({"chunks": [good0, [("if", "zz", 1, ("apply", "x", [("q", "q", 1)], []))], cont], "bad": [1], "seed": 6})
+    # the failing statement is a *call of a user gate* whose body fails while it is expanded (control = target, a
+    # non-finite angle, an unknown gate, a wrong arity one level down, recursion), once, twice and three times in a
+    # row; the continuation calls user gates again (directly and nested)
+    A, B = ("r", "a"), ("r", "b")
+    gdefs = {
+        "ctl": [("gate", "gc", ["a", "b"], [], [("apply", "cx", [A, B], [])])],
+        "inf": [("gate", "gi", ["a"], ["t"], [("apply", "rx", [A], [("div", ("num", "1"), ("var", "t"))])])],
+        "unk": [("gate", "gu", ["a"], [], [("apply", "nosuchgate", [A], [])])],
+        "ari": [("gate", "in2", ["a", "b"], [], [("apply", "cz", [A, B], [])]), ("gate", "ga", ["a"], [], [("apply", "in2", [A], [])])],
+        "nest": [("gate", "lo", ["a", "b"], [], [("apply", "cx", [A, B], [])]),
+                 ("gate", "mid", ["a", "b"], [], [("apply", "lo", [A, B], [])]), ("gate", "hi", ["a", "b"], [], [("apply", "mid", [A, B], [])])],
+    }
+    Q0, Q1 = ("q", "q", 0), ("q", "q", 1)
+    gfail = {"ctl": ("apply", "gc", [Q0, Q0], []), "inf": ("apply", "gi", [Q0], [("num", "0")]), "unk": ("apply", "gu", [Q0], []),
+             "ari": ("apply", "ga", [Q1], []), "nest": ("apply", "hi", [Q1, Q1], [])}
+    gcont = {"ctl": ("apply", "gc", [Q0, Q1], []), "inf": ("apply", "gi", [Q1], [("num", "2")]), "unk": ("apply", "h", [Q1], []),
+             "ari": ("apply", "in2", [Q0, Q1], []), "nest": ("apply", "hi", [Q0, Q1], [])}
+    for kind in gdefs:
+        for times in (1, 2, 3):
+            for lead in ([], [("apply", "h", [Q1], [])]):
+                start = [("qreg", "q", 2), ("creg", "c", 2)] + gdefs[kind] + [("apply", "h", [Q0], [])]
+                failing = lead + [gfail[kind]]
+                contn = [gcont[kind], ("gate", "late", ["a"], [], [("apply", "x", [A], [])]), ("apply", "late", [Q0], []),
+                         ("measure", ("r", "q"), ("r", "c"))]
+                sessions.append({"chunks": [start] + [failing] * times + [contn], "bad": list(range(1, 1 + times)), "seed": 8,
+                                 "rule": "failure inside a gate body (%s)" % kind, "position": times})
     # the failed attempt is the first thing the session sees (nothing accepted yet), once and twice in a row, in both
     # measurement modes; the continuation measures a qubit twice into the same bit, which tells the modes apart
     twice = [("qreg", "q", 2), ("creg", "c", 2), ("apply", "x", [("q", "q", 0)], []), ("measure", ("q", "q", 0), ("q", "c", 0)),
@@ -685,6 +768,30 @@ def c12_strings(rng, tier):
         "gate inner a, b { cx a, b; } gate mid a { inner a; } gate outer a { mid a; } qreg q[1]; outer q[0];",
         "gate inner a, b, c { ccx a, b, c; } gate outer a, b { inner a, b; h a; } qreg q[3]; creg c[1]; outer q[0], q[2]; measure q[0] -> c[0];",
     ]
+    # a non-finite value in every parameter position of every parametrised gate name (plain, upper case, with one to
+    # three leading c), written at the call, arising inside a gate body, and under an if -- followed by a measurement
+    nonfinite = ["1/0", "0/0", "(-1)/0", "ln(0)", "exp(1000)", "sqrt(0-1)", "1e308*10"]
+    for name, (npar, nq) in list(C09_STEMS.items()) + list(C09_CTRL.items()):
+        if not npar:
+            continue
+        for extra_c in (0, 1, 2):
+            nm = "c" * extra_c + name
+            k = nq + extra_c
+            qs = ", ".join("q[%d]" % i for i in range(k))
+            for pos in range(npar):
+                bad = rng.choice(nonfinite)
+                pars = ", ".join(bad if i == pos else "0.5" for i in range(npar))
+                form = rng.randrange(4)
+                nmx = nm.upper() if form == 3 else nm
+                if form in (0, 3):
+                    adversarial.append("qreg q[%d]; creg c[1]; %s(%s) %s; measure q[0] -> c[0];" % (k, nmx, pars, qs))
+                elif form == 1:
+                    formal = ", ".join("a%d" % i for i in range(k))
+                    inner = ", ".join("1/t" if i == pos else "0.5" for i in range(npar))
+                    adversarial.append("gate g(t) %s { %s(%s) %s; } qreg q[%d]; creg c[1]; g(0) %s; measure q[0] -> c[0];"
+                                       % (formal, nm, inner, formal, k, qs))
+                else:
+                    adversarial.append("qreg q[%d]; creg c[1]; if (c==0) %s(%s) %s; measure q[0] -> c[0];" % (k, nm, pars, qs))
     out += [(t, None) for t in adversarial]
     # operand / parameter counts changed at random call sites, top level and inside gate bodies
     def bump(st):
